@@ -739,6 +739,15 @@ theorem C02_offset_wrap_defect :
      | e => e) = .ok ⟨4294967297, [(4294967294, 4294967295, 1), (4294967295, 0, 2)], 2⟩ := by
   decide
 
+/-- `copy()` of a list whose atom count left `uint32` (only reachable through `C02_offset_wrap_defect`) raises
+OverflowError; every other list is copied as it is. -/
+theorem C02_copy_rejects (s : BL) :
+    (s.n ≥ 4294967296 → copyFull s = .err .overflowError) ∧ (s.n < 4294967296 → copyFull s = .ok s) := by
+  constructor <;> intro h
+  · simp [copyFull, h]
+  · have : ¬ s.n ≥ 4294967296 := by omega
+    simp [copyFull, this]
+
 /-- `__getitem__` with an integer index array: a dtype that cannot hold the atom count is refused with OverflowError
 whatever the array contains (**defect**: NumPy itself selects with such arrays); otherwise dtype plays no role. -/
 theorem C02_getitem_dtype (s : BL) (is : List Int) (layout : Layout) (dmax : Option Nat) :
